@@ -158,6 +158,8 @@ pub fn biased_word(rng: &mut crate::rng::Rng) -> u16 {
             l.put(&mut w, ch, v as i32);
         }
     }
+    // near misses: a valid encoding with one of its fixed (must-be-zero / must-be-one) bits flipped
+    if rng.chance(1, 6) { let (mask, _) = l.mask_bits(); let fixed: Vec<u32> = (0..12).filter(|b| mask >> b & 1 == 1).collect(); if !fixed.is_empty() { w ^= 1 << *rng.pick(&fixed); } }
     w
 }
 
